@@ -211,6 +211,9 @@ pub fn types_pkg(r: &mut Rng, all: bool) -> String {
         "  procedure p_clear(signal r : out rec_t);",
         "  procedure p_swap(variable a, b : inout integer);",
         "  procedure p_tick;",
+        "  constant c_un1 : boolean := not true and false;",
+        "  constant c_un2 : integer := abs (-3) + 1;",
+        "  constant c_un3 : boolean := (?? bit'('1')) or false;",
         "  type prot_t is protected\n    procedure inc(n : natural := 1);\n    impure function get return integer;\n  end protected;",
         "  component comp is\n    generic (G : natural := 1);\n    port (a : in @SL@; b : out @SL@);\n  end component;",
         "  type matrix_t is array (natural range <>, natural range <>) of @SL@;",
@@ -269,6 +272,8 @@ pub fn leaf(r: &mut Rng, all: bool) -> String {
     ]);
     let stmts = pick_lines(r, all, &[
         "  dout <= reg.data when reg.valid = '1' else (others => '0');",
+        "  wv_s <= f_inc(din) after 1 ns, f_inc(f_inc(din)) after 2 ns, din after 3 ns;",
+        "  wv2 : process\n  begin\n    wv_s <= transport f_inc(din) after 1 ns, f_inc(reg.data) after 2 ns;\n    wait on din;\n  end process;",
         "  with en select\n    vld <= reg.valid when '1',\n           '0' when others;",
         "  chk : assert DEPTH > 0 report \"bad depth \" & integer'image(DEPTH) severity failure;",
         "  comb : process(all)\n    variable tmp : byte_t;\n  begin\n    tmp := f_inc(din);\n    nxt <= reg;\n    if en = '1' then\n      nxt.data <= tmp;\n      nxt.valid <= '1';\n    elsif rst = '1' then\n      nxt <= REC_INIT;\n    else\n      null;\n    end if;\n  end process comb;",
@@ -276,7 +281,7 @@ pub fn leaf(r: &mut Rng, all: bool) -> String {
         "  lp : process\n    variable i : integer := 0;\n  begin\n    while i < 4 loop\n      i := i + 1;\n      next when i = 2;\n      exit when i = 3;\n    end loop;\n    wait;\n  end process lp;",
     ]);
     format!(
-        "@HDR@\nlibrary lib;\nuse lib.types_pkg.all;\n\nentity leaf is\n  generic (\n    DEPTH : positive := 4;\n    NAME : string := \"leaf\"\n  );\n  port (\n    clk : in @SL@;\n    rst : in @SL@;\n    en : in @SL@ := '1';\n    din : in byte_t;\n    dout : out byte_t;\n    vld : out @SL@\n  );\nend entity leaf;\n\narchitecture rtl of leaf is\n  signal reg, nxt : rec_t := REC_INIT;\n  signal sel : @SL@;\n{decls}begin\n  seq : process(clk)\n  begin\n    if @RE@ then\n      if rst = '1' then\n        reg <= REC_INIT;\n      else\n        reg <= nxt;\n        reg.cnt <= (reg.cnt + 1) mod 8;\n      end if;\n    end if;\n  end process seq;\n{stmts}end architecture rtl;\n"
+        "@HDR@\nlibrary lib;\nuse lib.types_pkg.all;\n\nentity leaf is\n  generic (\n    DEPTH : positive := 4;\n    NAME : string := \"leaf\"\n  );\n  port (\n    clk : in @SL@;\n    rst : in @SL@;\n    en : in @SL@ := '1';\n    din : in byte_t;\n    dout : out byte_t;\n    vld : out @SL@\n  );\nend entity leaf;\n\narchitecture rtl of leaf is\n  signal reg, nxt : rec_t := REC_INIT;\n  signal sel : @SL@;\n  signal wv_s : byte_t;\n{decls}begin\n  seq : process(clk)\n  begin\n    if @RE@ then\n      if rst = '1' then\n        reg <= REC_INIT;\n      else\n        reg <= nxt;\n        reg.cnt <= (reg.cnt + 1) mod 8;\n      end if;\n    end if;\n  end process seq;\n{stmts}end architecture rtl;\n"
     )
 }
 
@@ -855,6 +860,9 @@ package zoo_pkg is
   end component;
   package inner_pkg is new work.zoo_g0 generic map (g => 1);
   constant c_uarr : t_uarr(0 to 3) := (others => 0);
+  constant c_un1 : boolean := not c_bool and f_bool;
+  constant c_un2 : integer := abs c_int + 1;
+  constant c_un3 : integer := - c_int * 2 ** 2;
 end package zoo_pkg;
 
 package body zoo_pkg is
